@@ -100,6 +100,10 @@ class LibsModel:
             if last == 'EDRReader':
                 return AV(ty='EDRReader', deps=d, parsed=True)
         # ---- pandas
+        if qual == 'pandas.unique' and args:
+            # like np.unique, but in order of first appearance: NOT sorted
+            u = self.np_unique(interp, st, args, {}, node)
+            return u.w(sorted=False, appearance_order=True)
         if qual == 'pandas.DataFrame':
             data = self.arg(args, kwargs, 0, 'data')
             cols = kwargs.get('columns')
